@@ -17,7 +17,7 @@ META = {
               "(termination inside the bound). Log level arbitrary 0..8.",
     "outside": "inputs longer than the per-job n through whole-message parsing; stream readers (decided under C05 with the "
                "same memory obligations); OSCORE option input (C14); endpoint states beyond the S-shape pre-states of C05/C06/C11/C15; "
-               "coap_debug.c beyond coap_show_pdu on the listed single-option shapes (value lengths 0..max per printer) and 4-byte messages (thorough)",
+               "coap_debug.c beyond coap_show_pdu on the listed single-option shapes (value lengths 0..max per printer)",
     "assumptions": [
         "CBMC built-in obligations: pointer dereference/bounds/use-after-free/double-free, pointer overflow, signed overflow, undefined shift, unwinding assertions",
         "coap_log_impl stubbed empty (formatting not executed), log level arbitrary; allocator never fails",
@@ -77,11 +77,8 @@ def jobs():
                   ("msg_option_string.2", 64), ("msg_option_string.3", 64), ("msg_option_string.4", 64)):
         uw_dbg[fn] = k                                               # name tables of coap_debug.c: constant sizes < 64
         uw_dbg["__CPROVER_file_local_coap_debug_c_" + fn] = k
-    for n in range(4, 5):     # n >= 5 (symbolic option number x name tables x per-option printers): SAT out of memory at 16 GB
-        js.append(Job("show-pdu@udp-n%02d" % n, "C02/c02d.c", "c02_show_pdu", units_dbg, extra_src=EXTRA, unit_defines=CUT,
-                      defines=["N=%d" % n], unwind=n + 2, unwindset=uw_dbg, termination=True, group="show-pdu", remove_bodies=rb_dbg,
-                      tier="thorough", timeout=2400, mem_gb=28, est_gb=20,   # 16 GB were not enough when other jobs ran beside it
-                      desc="coap_show_pdu (debug-level walk) on every accepted %d-byte UDP message, exact-size PDU" % n, bounds={"n": n}))
+    # show-pdu@udp-n04 (every accepted 4-byte message through coap_show_pdu) ran out of SAT memory at 16 GB beside other jobs and is not registered;
+    # the per-printer show-option jobs below carry the claim
     # the option printers with their own value parsing, concrete layout, value bytes symbolic, every value length 0..L
     for num, name, minlen, maxlen in ((9, "oscore", 0, 8), (23, "block2", 0, 3), (27, "block1", 0, 3), (12, "content-format", 0, 2), (17, "accept", 0, 2),
                                       (7, "uri-port", 0, 2), (6, "observe", 0, 3), (4, "etag", 1, 4), (258, "no-response", 0, 1), (292, "rtag", 0, 3), (11, "uri-path", 0, 3),
